@@ -84,6 +84,14 @@ def make_spec(rng, light=False):
     spec = gen.general(rng, maxfev=(20, 60) if light else (25, 90),
                        forms=("nlc", "dict_ineq"), with_callback=False,
                        with_faults=False, fun_none=0.05)
+    if rng.random() < 0.15 and spec["con_kind"] in ("none", "lin") and \
+            spec["obj"]["kind"] != "none":
+        # an objective that is exactly 0.0 on a ball around x0: every model
+        # is identically zero (exact ties, zero gradients everywhere)
+        x0 = np.asarray(spec["x0"], float)
+        spec["obj"] = {"kind": "plateau",
+                       "c": (x0 + rng.uniform(-0.3, 0.3, x0.size)).tolist(),
+                       "r": float(rng.uniform(1.0, 6.0))}
     if rng.random() < 0.45:
         # non-default constants (kept per call, never in module-level state)
         cst = {}
